@@ -66,6 +66,14 @@ check("C07", "TLC exploration of BMUpdate histories + Ineligible computed by the
       "DESIGN.md §4.4, §6 C07")
 
 
+check("C11", "TLC check of get-put on LPath + replay comparing every emitted path argument with LPath",
+      "TLC checks the get-put law Eval(e, SetAt(D, LPath(e,D), w)) = w on the specification for every case of family F7 "
+      "and attaches LPath to every model:/event/change:/event-like/slot-value/wx:for site; the harness compares each "
+      "path argument the generated code hands to the runtime with it (model, 0-data, 1-script, 2-inline-script "
+      "conventions), requires no path for non-assignable expressions, and repeats get-put on the real code.",
+      "DESIGN.md §4.3, §6 C11")
+
+
 def main():
     props = [json.loads(l) for l in open(os.path.join(HERE, "properties.jsonl"))]
     ids = [p["id"] for p in props]
